@@ -348,7 +348,7 @@ def z3_z4_gpu(F, R, M, roles):
         oks = [n for n in sg.nodes if n.ctx == 0 and n.kind == 'assign' and not n.d['place']['p'] and n.d['place']['l'] == 0
                and n.d['rv']['rv'] == 'agg' and n.d['rv'].get('variant') == 'Ok' and n.id in live]
         try:
-            okpaths = [p for p in PathEnum(sg).run() if not p.panicked and err_variant(p.ret) == 'Ok'] if not back_edges(sg) else None
+            okpaths = [p for p in PathEnum(sg).run() if not p.panicked and (err_variant(p.ret) == 'Ok' or (err_variant(p.ret) is None and p.ret is not None and p.ret[0] == 'call'))] if not back_edges(sg) else None    # Ok(..) or the last command helper's own result returned directly
         except PathLimit:
             okpaths = None
         for first, then in seqs[b['name']]:
